@@ -329,3 +329,94 @@ func drawZPar(t *rapid.T, s *graph.Scenario) {
 		}
 	}
 }
+
+// TestPostStartHistory: a multi-step history after a successful start. Mostly lazy components, some of
+// them failing their first initialisation; the history draws by-name lookups (repeated, also of failed
+// names), typed lookups and full enumerations. After EVERY step: a name that was handed out once keeps
+// returning the same object, nobody holds a second version, wiring stays admissible and duplicate free,
+// and every component that never failed was initialised at most once.
+func TestPostStartHistory(t *testing.T) {
+	kit.Rec.Rule(rule)
+	rapid.Check(t, func(t *rapid.T) {
+		s := graph.Gen(t, graph.GenOpts{MinNodes: 3, MaxNodes: 6, Variants: "LLLNE", Aliases: true})
+		for i := range s.Nodes {
+			if s.Nodes[i].Variant == 'L' && rapid.IntRange(0, 4).Draw(t, "failonce") == 0 {
+				s.Nodes[i].FailInit = zoo.FailOnce
+			}
+		}
+		in := s.Instantiate()
+		in.Run()
+		desc := "history " + s.Shape()
+		if in.Out.Panic != nil {
+			t.Fatalf("C01: panic %v\n%s", in.Out.Panic, desc)
+		}
+		if in.Out.Err != nil {
+			kit.Rec.Case(desc, false, "start-failed")
+			return
+		}
+		g := in.G
+		handed := map[string]any{}
+		var hist []string
+		check := func() {
+			for n, first := range handed {
+				got, err := in.Out.App.GetComponentByName(n)
+				if err != nil || got != first {
+					t.Fatalf("C01: %q was handed out as %p before; now the lookup returns %v / %v\nhistory %v\n%s", n, first, got, err, hist, desc)
+				}
+			}
+			if err := graph.CheckWiring(g, false); err != nil {
+				t.Fatalf("C01: after %v: %v\n%s", hist, err, desc)
+			}
+			for i, b := range in.Behs {
+				max := 1
+				if s.Nodes[i].FailInit == zoo.FailOnce {
+					max = 2
+				}
+				if b.InitCalls > max {
+					t.Fatalf("C01: component %d was initialised %d times\nhistory %v\n%s", i, b.InitCalls, hist, desc)
+				}
+			}
+		}
+		t.Repeat(map[string]func(*rapid.T){
+			"lookup": func(t *rapid.T) {
+				i := rapid.IntRange(0, len(in.Comps)-1).Draw(t, "which")
+				n := in.Comp(i).Name
+				got, err := in.Out.App.GetComponentByName(n)
+				hist = append(hist, fmt.Sprintf("lookup(%s) err=%v", n, err != nil))
+				if err == nil {
+					if prev, ok := handed[n]; ok && prev != got {
+						t.Fatalf("C01: two lookups of %q returned different objects\nhistory %v\n%s", n, hist, desc)
+					}
+					if got != in.Comps[i] {
+						t.Fatalf("C01: lookup of %q returned %T %p, the registered component is %p\n%s", n, got, got, in.Comps[i], desc)
+					}
+					handed[n] = got
+				}
+			},
+			"enumerate": func(t *rapid.T) {
+				all, err := in.Out.App.GetComponents()
+				hist = append(hist, fmt.Sprintf("enumerate err=%v n=%d", err != nil, len(all)))
+				if err == nil {
+					seen := map[any]int{}
+					for _, c := range all {
+						seen[c]++
+					}
+					for _, c := range in.Comps {
+						if seen[c] != 1 {
+							t.Fatalf("C01: GetComponents lists %T %d times\nhistory %v\n%s", c, seen[c], hist, desc)
+						}
+					}
+				}
+			},
+			"typed": func(t *rapid.T) {
+				nodes, err := in.Out.App.GetComponents(container.InterfaceType(reflect.TypeOf((*zoo.INode)(nil)).Elem()))
+				hist = append(hist, fmt.Sprintf("typed err=%v n=%d", err != nil, len(nodes)))
+				if err == nil && len(nodes) != len(in.Comps) {
+					t.Fatalf("C01: typed lookup returned %d of %d node components\nhistory %v\n%s", len(nodes), len(in.Comps), hist, desc)
+				}
+			},
+			"": func(t *rapid.T) { check() },
+		})
+		kit.Rec.Case(desc+" | "+strings.Join(hist, ";"), len(hist) >= 3, "post-start-history")
+	})
+}
